@@ -8,6 +8,7 @@
 import Hy.Proofs.Pnq
 import Hy.Proofs.BbrCore
 import Hy.Model.BbrProfiles
+import Hy.Proofs.BbrFilter
 import Hy.Gen.C12Sites
 set_option linter.unusedSimpArgs false
 namespace Hy.Props.C12
@@ -290,5 +291,41 @@ theorem progress (cfg : Bbr.Cfg) (mds : Nat) (hm : 0 < mds) (evs : List Bbr.Even
 /-- the pacer's zero-bandwidth fault that `minBps` exists to prevent, as a fact of the model -/
 theorem pacer_zero_bandwidth_faults :
     ({ budgetAtLastSent := 0, mds := 1280, last := 5 } : Bbr.Pacer).timeUntilSend 0 = .panic := by decide
+
+/-! ## (c) bandwidth sampler and windowed filter — Hy.Model.BbrSampler = bandwidth_sampler.go +
+    windowed_filter.go with Go's wrapping int64/uint64 arithmetic; compared field by field with the
+    real sampler after every call of every simulated connection. -/
+
+open Hy.Sampler in
+/-- **windowed_filter_spec** (max filter by `key`; a min filter is the same statement for the
+    negated key).  From the constructor state, after feeding any non-empty list of samples at
+    non-decreasing uint64 times, the best estimate (i) is one of the samples fed, (ii) dominates
+    every sample fed after it — it is the maximum of the samples from its own position on, in
+    particular ≥ the newest sample — and (iii) is fresh: not older than the window length. -/
+theorem windowed_filter_spec {V} (key : V → Int) (kz : Int) (zero : V) (hz : key zero = kz) (W : Nat)
+    (xs : List (V × Nat)) (hne : xs ≠ []) (ht : TimesOk 0 xs) :
+    let f := WFilter.feed key kz (WFilter.new zero W) xs
+    ∃ pre post, xs = pre ++ (f.e0.1, f.e0.2) :: post ∧ (∀ x ∈ post, key x.1 ≤ key f.e0.1) ∧
+      (xs.getLast hne).2 - f.e0.2 ≤ W := by
+  intro f
+  obtain ⟨tl, hi⟩ := Sampler.windowed_filter_inv key kz zero hz W xs hne ht
+  obtain ⟨⟨pre, post, hsplit, hdom⟩, _⟩ := hi.g0
+  have hl := hi.lastT
+  rw [List.getLast?_eq_some_getLast hne] at hl
+  simp at hl
+  refine ⟨pre, post, hsplit, hdom, ?_⟩
+  rw [hl]; exact hi.fresh
+
+/-- the hypotheses are met by the round counts the sender uses as times -/
+example : Sampler.TimesOk 0 [((800000 : Nat), 1), (900000, 1), (700000, 2), (100, 13)] := by
+  simp [Sampler.TimesOk]
+
+/-- "returns THE maximum of the samples inside its window" is false for this algorithm (three
+    estimates only): with window 10 the samples 10@0, 9@2, 5@3, 1@11 leave best = 5@3 although
+    9@2 is still inside the window — a `decide`d fact, so the exact-window-max reading of the
+    specification is recorded as not holding (`windowed_filter_spec` is what does hold). -/
+theorem windowed_filter_not_exact_max :
+    (Sampler.WFilter.feed (fun n : Nat => (n : Int)) 0 (Sampler.WFilter.new 0 10) [(10, 0), (9, 2), (5, 3), (1, 11)]).e0
+      = (5, 3) := Sampler.windowed_filter_not_exact_max
 
 end Hy.Props.C12
